@@ -284,7 +284,7 @@ ImplStep(kind, p, s, in) ==
                  total == pos + neg
              IN R([s EXCEPT !.index = idx, !.count = cnt, !.previous_typical_price = tp3,
                             !.total_positive_money_flow = pos, !.total_negative_money_flow = neg, !.deque = dq],
-                  <<IF total = 0 THEN RI(50) ELSE Norm(100 * pos, total)>>)
+                  <<IF total = 0 THEN RI(50) ELSE RScale(100, Norm(pos, total))>>)
     [] kind = "OBV" ->
         LET obv == IF in.c > s.prev_close THEN s.obv + in.v
                    ELSE IF in.c < s.prev_close THEN s.obv - in.v ELSE s.obv
